@@ -31,7 +31,11 @@ type Case struct {
 
 const mark = "\x01"
 
-var faults = []string{"param-q", "zz-undefined", "(throw \"boom\")", "(nth [1] 9)", "(/ 1 0)", "(assert false)", "(throw {:code 7})", "(first 5)", "(zz-undefined-fn 1)", "(-> [1] (nth 9))", "(->> 9 (nth [1]))"}
+var faults = []string{"param-q", "zz-undefined", "(throw \"boom\")", "(nth [1] 9)", "(/ 1 0)", "(assert false)", "(throw {:code 7})", "(first 5)", "(zz-undefined-fn 1)", "(-> [1] (nth 9))", "(->> 9 (nth [1]))",
+	// builtins that fail inside text read at run time (the inner error has coordinates of that text)
+	"(read-string \"(1 2\")", "(eval (read-string \"(zz-undefined-inner 1)\"))", "(eval (read-string \"\\n\\n(nth [1] 9)\"))", "(read-string \"\\n\\n\\n\\n\\n\\n\\n\\n\\n)\")",
+	// threading steps written as bare names (the failing call is assembled by the macro)
+	"(-> 5 first)", "(-> [[5]] first first first)", "(->> [1] count keys)", "(apply nth [[1] 9])", "(eval (list 'nth [1] 9))", "(eval '(zz-undefined 1))"}
 
 type wrapper struct {
 	name string
